@@ -108,6 +108,16 @@ def _is_principal(e: ast.AST, neg: bool) -> bool:
         and (A.dotted(k) or "").split(".")[0] == (A.dotted(v) or "").split(".")[0]
 
 
+def _muts_of(fn, name: str):
+    out = []
+    for s in A.stores(fn):
+        t = s.target
+        base = t.value if isinstance(t, ast.Subscript) else t
+        if A.dotted(base) == name and (s.kind in ("augassign", "mutcall", "subscript", "delete") or isinstance(t, ast.Subscript)):
+            out.append(s)
+    return out
+
+
 def classify_update_site(ctx: Ctx, fn, c: ast.Call) -> Tuple[Optional[str], str]:
     kw = _kwmap(c)
     if c.args:
@@ -126,15 +136,15 @@ def classify_update_site(ctx: Ctx, fn, c: ast.Call) -> Tuple[Optional[str], str]
             return "loan-open", "balance and borrowed both +principal"
         if isinstance(b, ast.Name) and isinstance(r, ast.Name) and b.id == r.id:
             defs = _local(fn, b.id)
-            muts = [s for s in A.stores(fn) if A.dotted(s.target) == b.id and s.kind in ("augassign", "mutcall", "subscript")]
+            muts = _muts_of(fn, b.id)
             if len(defs) == 1 and _is_principal(defs[0], neg=True) and not muts:
                 return "loan-cancel", "same -principal object for balance and borrowed"
             return None, "shared variable is not a plain -principal map"
         if isinstance(b, ast.Name) and _is_principal(r, neg=True):
             defs = _local(fn, b.id)
-            muts = [s for s in A.stores(fn) if A.dotted(s.target) == b.id and s.kind in ("augassign", "mutcall", "subscript")]
+            muts = _muts_of(fn, b.id)
             only_interest = len(muts) == 1 and isinstance(muts[0].node, ast.AugAssign) and isinstance(muts[0].node.op, ast.Sub) \
-                and isinstance(muts[0].node.value, ast.Name)
+                and isinstance(muts[0].node.value, ast.Name) and isinstance(muts[0].target, ast.Name)
             if len(defs) == 1 and _is_principal(defs[0], neg=True) and only_interest:
                 return "loan-repay", f"balance = -principal - {muts[0].node.value.id}; borrowed = -principal"
             return None, "balance delta of a repayment is not (-principal) - interest"
